@@ -6,7 +6,8 @@
     [wfb_*] = the well-formedness checkers; [wf x := wfb_input x = true]). *)
 From Coq Require Import ZArith List String Bool.
 From Celer Require Import C19.Json C19.OrangeCodec Generated.C19_keys C19.KeysProofs
-  C19.JsonProofs C19.LogicProofs C19.LeafProofs C19.CodecProofs C19.WireProofs C19.Examples.
+  C19.JsonProofs C19.LogicProofs C19.LeafProofs C19.CodecProofs C19.WireProofs C19.Examples
+  C19.Reader C19.ReaderProofs C19.ReaderLogicProofs C19.ReaderWitness C19.ReaderWitnessProofs.
 Import ListNotations.
 
 (** ** Obligations regenerated from the source on every run *)
@@ -101,3 +102,68 @@ Print Assumptions C19_dec_enc_orange_input.
 Theorem C19_wf_satisfiable : wf ex_input /\ List.length (oi_universes ex_input) = 3%nat.
 Proof. exact (conj ex_input_wf eq_refl). Qed.
 Print Assumptions C19_wf_satisfiable.
+
+(** ** The reader side (C19/Reader.v): every document [nlohmann::json::parse]
+    can return ([jwell]: finite, valid doubles) and [from_json] accepts decodes
+    to an input that is well-formed EXACTLY when it is none of the listed
+    exceptions ([rx_input]: empty logic string; digit runs evaluating to
+    lopen/lclose/lend; a bbox with lower > upper; a null unit bbox; a label
+    string with a dangling '@'). *)
+Theorem C19_dec_input_wf_iff : forall j x, jwell j = true -> dec_input j = Some x ->
+  wfb_input x = rx_input x.
+Proof. exact dec_input_wf_iff. Qed.
+Print Assumptions C19_dec_input_wf_iff.
+
+Theorem C19_dec_produces_wf : forall j x, jwell j = true -> dec_input j = Some x ->
+  rx_input x = true -> wf x.
+Proof. exact dec_produces_wf. Qed.
+Print Assumptions C19_dec_produces_wf.
+
+(** the round trip holds for every accepted file, not only for writer output *)
+Theorem C19_dec_enc_dec : forall j x, jwell j = true -> dec_input j = Some x -> rx_input x = true ->
+  exists j', enc_input x = Some j' /\ wire j' = j' /\ dec_input (wire j') = Some x.
+Proof. exact dec_enc_dec. Qed.
+Print Assumptions C19_dec_enc_dec.
+
+(** app/orange-update.cc (parse, from_json, to_json, dump): the tool succeeds,
+    its output decodes to the same input and is a fixed point of the tool *)
+Theorem C19_orange_update_fixed_point : forall j x, jwell j = true -> dec_input j = Some x ->
+  rx_input x = true ->
+  exists j1, update_file j = Some j1 /\ dec_input j1 = Some x /\ update_file j1 = Some j1.
+Proof. exact update_fixed_point. Qed.
+Print Assumptions C19_orange_update_fixed_point.
+
+(** the only unreadable tokens the reader can return are lopen/lclose/lend *)
+Theorem C19_string_to_logic_exceptions : forall s l, string_to_logic s = Some l ->
+  forall t, In t l -> wfb_token t = false -> t = LOPEN \/ t = LCLOSE \/ t = LEND.
+Proof. exact string_to_logic_exceptions. Qed.
+Print Assumptions C19_string_to_logic_exceptions.
+
+(** each exception is real (witness documents in C19/ReaderWitness.v, replayed
+    on the real tool by the check): the tool rejects its own output ... *)
+Theorem C19_update_second_pass_fails_refuted :
+  forall d, In d [doc_empty_logic; doc_digits_lopen] ->
+  jwell d = true /\ exists x j1, dec_input d = Some x /\ rx_input x = false
+                                 /\ update_file d = Some j1 /\ update_file j1 = None.
+Proof. exact exception_second_pass_fails. Qed.
+Print Assumptions C19_update_second_pass_fails_refuted.
+
+(** ... or the text is not yet a fixed point at the second pass ("a@@" -> "a@" -> "a") *)
+Theorem C19_update_label_not_fixed_refuted :
+  exists j1 j2, jwell doc_label_at_at = true /\ update_file doc_label_at_at = Some j1
+    /\ update_file j1 = Some j2 /\ j2 <> j1 /\ update_file j2 = Some j2.
+Proof. exact exception_label_not_fixed_at_second_pass. Qed.
+Print Assumptions C19_update_label_not_fixed_refuted.
+
+(** ** The oriented bounding zone is not serialised: the round trip returns
+    [drop_obz x] (everything else survives), and that is a real loss *)
+Theorem C19_dec_enc_orange_input_obz : forall x, wf (drop_obz x) ->
+  exists j, enc_input x = Some j /\ wire j = j /\ dec_input (wire j) = Some (drop_obz x).
+Proof. exact dec_enc_orange_input_obz. Qed.
+Print Assumptions C19_dec_enc_orange_input_obz.
+
+Theorem C19_obz_round_trip_refuted :
+  exists x j, wf (drop_obz x) /\ has_obz x = true /\ enc_input x = Some j
+              /\ dec_input (wire j) = Some (drop_obz x) /\ drop_obz x <> x.
+Proof. exact obz_round_trip_refuted. Qed.
+Print Assumptions C19_obz_round_trip_refuted.
